@@ -77,3 +77,9 @@ package state
 //@   modifies nothing
 //@   ensures err == nil ==> result0 != nil && fresh(result0)
 //@   note loads and decodes the node status record (a fresh object)
+
+//@ func ImmutableState.Nodes
+//@   trusted
+//@   modifies nothing
+//@   ensures err == nil ==> (forall j int :: 0 <= j && j < len(result0) ==> result0[j] != nil)
+//@   note loads and decodes every registered node descriptor (no nil entries)
